@@ -17,8 +17,8 @@ CLAIM = ("The Lean model of parse.rs (Model/Parse.lean: terminal lexer incl. esc
          "(the three-phase literal lexer = a character-by-character reference decoder, on every input), terminal_roundtrip / "
          "terminal_roundtrip_escape_all (every literal over the permitted characters, printed with the fewest escapes or with every "
          "special character escaped, reads back exactly), description_roundtrip (every description with quotes and backslashes escaped "
-         "reads back exactly), and the facts about blanks and comments. ladder_roundtrip (Proofs/Ladder.lean): every normal-form tree over literals of regular characters, nonterminals and commands built with sequence, |, ||, [ ] and postfix ..., printed with the minimum of parentheses (Parse.pp), is read back by the parser model as the same tree up to spans — and the text this Lean printer produces for every such tree with <= N nodes is fed to the real parser on every run. ladder_roundtrip_layout (Proofs/LadderLayout.lean): the same under every admissible layout — any stretch of blanks, form feeds and closed # comments chosen independently at every position of the tree (between the items of a sequence, on either side of | and ||, inside brackets and parentheses, before a postfix ...), with at least one character between two words and no # directly after a word; Parse.pp is the instance with one blank at the operators. ladder_roundtrip_full (Proofs/LadderFull.lean): the ladder with literals over every admitted character printed with the fewest escapes, literals with descriptions, descriptions distributed over groups and words built by juxtaposition (--opt=<V>), for a printer that adds the parentheses the three-dots and description rules require; full_restrictions_needed: kernel-evaluated counterexamples for each side condition. grammar_roundtrip / grammar_roundtrip_layout (Proofs/Statements.lean): whole files — lists of statements `cmd expr;`, `<NAME> ::= expr;`, `<NAME@shell> ::= expr;` over the operator ladder under every admissible layout (leading / trailing comments, after names, around ::= or =, before ;, between statements, last ; optional) are read back by the model of Grammar::parse as the same grammar up to spans, with the fuel Grammar::parse itself provides. The Lean printers of these theorems are exercised on every run: the text of Full.pp' for trees with escapes / descriptions / juxtaposition (the driver also reports whether the parser model reads it back, i.e. whether the tree is in the fragment) and the text of ppGrammar / ppGrammarL for grammars of 1-3 statements under layouts drawn from a seed (menu checked admissible by the driver) are fed to the real parser, which must return the tree they were printed from. Open: layout and whole files for the larger fragment (escapes, descriptions, juxtaposition).")
-NOTE = ("Proved: the two lexer round trips and the operator ladder on its fragment; open: layout and statements for the fragment with juxtaposition / descriptions / escaped literals. Trusted: the Python printer (minimum parentheses, fewest "
+         "reads back exactly), and the facts about blanks and comments. ladder_roundtrip (Proofs/Ladder.lean): every normal-form tree over literals of regular characters, nonterminals and commands built with sequence, |, ||, [ ] and postfix ..., printed with the minimum of parentheses (Parse.pp), is read back by the parser model as the same tree up to spans — and the text this Lean printer produces for every such tree with <= N nodes is fed to the real parser on every run. ladder_roundtrip_layout (Proofs/LadderLayout.lean): the same under every admissible layout — any stretch of blanks, form feeds and closed # comments chosen independently at every position of the tree (between the items of a sequence, on either side of | and ||, inside brackets and parentheses, before a postfix ...), with at least one character between two words and no # directly after a word; Parse.pp is the instance with one blank at the operators. ladder_roundtrip_full (Proofs/LadderFull.lean): the ladder with literals over every admitted character printed with the fewest escapes, literals with descriptions, descriptions distributed over groups and words built by juxtaposition (--opt=<V>), for a printer that adds the parentheses the three-dots and description rules require; full_restrictions_needed: kernel-evaluated counterexamples for each side condition. grammar_roundtrip / grammar_roundtrip_layout (Proofs/Statements.lean): whole files — lists of statements `cmd expr;`, `<NAME> ::= expr;`, `<NAME@shell> ::= expr;` over the operator ladder under every admissible layout (leading / trailing comments, after names, around ::= or =, before ;, between statements, last ; optional) are read back by the model of Grammar::parse as the same grammar up to spans, with the fuel Grammar::parse itself provides. The Lean printers of these theorems are exercised on every run: the text of Full.pp' for trees with escapes / descriptions / juxtaposition (the driver also reports whether the parser model reads it back, i.e. whether the tree is in the fragment) and the text of ppGrammar / ppGrammarL for grammars of 1-3 statements under layouts drawn from a seed (menu checked admissible by the driver) are fed to the real parser, which must return the tree they were printed from. ladder_roundtrip_full_layout / grammar_roundtrip_full_layout (Proofs/LadderFullLayout.lean, StatementsFull.lean): both extensions together — whole files over the larger fragment under every admissible layout (additionally a possibly empty stretch before a description, not starting with #; none inside a word: layout_positions_needed). Open: blanks inside {{{ }}}, redundant parentheses.")
+NOTE = ("Proved: the two lexer round trips and the operator ladder on its fragment; open: blanks inside {{{ }}} and redundant parentheses. Trusted: the Python printer (minimum parentheses, fewest "
         "escapes) — it is the specification of the surface syntax here — and vh's tree dump.")
 TECHNIQUE = "exact correspondence of the Lean parser model with the real parser (trees, spans, error locations) + Lean round-trip theorems for the literal and description lexers + print/parse round trip on the real parser"
 DESIGN_REF = "§3 C05"
